@@ -18,6 +18,32 @@ const (
 	roleDays = 45 * day
 )
 
+// wholeSecondsOf: v is the number of seconds of a duration d, never more than d: d.Seconds(), d / time.Second,
+// int64(d) / 1e9, possibly through numeric conversions.
+func wholeSecondsOf(v ssa.Value) (ssa.Value, bool) {
+	v = km.Unwrap(v)
+	for i := 0; i < 3; i++ {
+		if cv, ok := v.(*ssa.Convert); ok {
+			v = km.Unwrap(cv.X)
+			continue
+		}
+		break
+	}
+	if sec, ok := isCall(v, "(time.Duration).Seconds"); ok {
+		return km.Unwrap(sec.Common().Args[0]), true
+	}
+	if b, ok := v.(*ssa.BinOp); ok && b.Op == token.QUO {
+		if k, isC := km.ConstInt(b.Y); isC && k == int64(1e9) {
+			d := km.Unwrap(b.X)
+			if cv, ok := d.(*ssa.Convert); ok {
+				d = km.Unwrap(cv.X)
+			}
+			return d, true
+		}
+	}
+	return nil, false
+}
+
 func isCall(v ssa.Value, name string) (*ssa.Call, bool) {
 	cl, ok := km.Unwrap(v).(*ssa.Call)
 	if !ok || km.CalleeFull(cl.Common()) != name {
@@ -57,26 +83,55 @@ func checkC03(c *km.Ctx) {
 		return
 	}
 	isAuthInfo := func(v ssa.Value) bool { return s.Is(v, km.RoleAuthInfo) }
-	// the session-age bound: time.Until((authInfo.IssuedAt).Add(24h))
-	var ageBound ssa.Value
-	km.Instrs(h, func(in ssa.Instruction) {
-		cl, ok := in.(*ssa.Call)
-		if !ok || km.CalleeFull(cl.Common()) != "time.Until" {
-			return
+	// the session-age bound of a function: time.Until((authInfo.IssuedAt).Add(<= 24h)) computed in it
+	ageMemo := map[*ssa.Function]ssa.Value{}
+	ageBoundOf := func(fn *ssa.Function) ssa.Value {
+		if v, ok := ageMemo[fn]; ok {
+			return v
 		}
-		add, ok := isCall(cl.Common().Args[0], "(time.Time).Add")
-		if !ok {
-			return
+		var found ssa.Value
+		km.Instrs(fn, func(in ssa.Instruction) {
+			cl, ok := in.(*ssa.Call)
+			if !ok || km.CalleeFull(cl.Common()) != "time.Until" {
+				return
+			}
+			add, ok := isCall(cl.Common().Args[0], "(time.Time).Add")
+			if !ok {
+				return
+			}
+			base, fld, ok2 := km.FieldOfLoad(km.Unwrap(add.Common().Args[0]))
+			d, isC := km.ConstInt(add.Common().Args[1])
+			if ok2 && fld == "IssuedAt" && isAuthInfo(base) && isC && d > 0 && d <= day {
+				found = cl
+			}
+		})
+		ageMemo[fn] = found
+		return found
+	}
+	// the three bounds of a duration value under one conjunction of facts of function fn; when the value is the
+	// result of a helper, every compatible return of the helper must establish the bound in the helper's frame
+	var bounds func(k km.Conj, fn *ssa.Function, v ssa.Value, depth int) (cap24, capAge, nonNeg bool)
+	bounds = func(k km.Conj, fn *ssa.Function, v ssa.Value, depth int) (bool, bool, bool) {
+		k = s.Augment(k)
+		cap24 := proveLEConst(k, v, day)
+		capAge := false
+		if ab := ageBoundOf(fn); ab != nil {
+			capAge = km.ProveLE(k, v, ab)
 		}
-		base, fld, ok2 := km.FieldOfLoad(km.Unwrap(add.Common().Args[0]))
-		d, isC := km.ConstInt(add.Common().Args[1])
-		if ok2 && fld == "IssuedAt" && isAuthInfo(base) && isC && d > 0 && d <= day {
-			ageBound = cl
+		nonNeg := km.ProveGE0(k, v)
+		if (cap24 && capAge && nonNeg) || depth >= 3 {
+			return cap24, capAge, nonNeg
 		}
-	})
-	if ageBound == nil {
-		r.AnchorLost("R-C03-1", "time.Until(authInfo.IssuedAt.Add(<=24h)) in certGenHandler")
-		return
+		cases, isCall := s.ResultCases(k, v)
+		if !isCall || len(cases) == 0 {
+			return cap24, capAge, nonNeg
+		}
+		a24, aAge, aNN := true, true, true
+		for _, rc := range cases {
+			x, y, z := bounds(rc.K, rc.Fn, rc.Val, depth+1)
+			a24, aAge, aNN = a24 && x, aAge && y, aNN && z
+		}
+		return cap24 || a24, capAge || aAge, nonNeg || aNN
 	}
 	nCalls := 0
 	for _, ci := range km.CallsIn(h) {
@@ -97,9 +152,9 @@ func checkC03(c *km.Ctx) {
 			continue
 		}
 		st := c.F.At(ci)
-		cap24 := st.All(func(k km.Conj) bool { return proveLEConst(k, dur, day) })
-		capAge := st.All(func(k km.Conj) bool { return km.ProveLE(k, dur, ageBound) })
-		nonNeg := st.All(func(k km.Conj) bool { return km.ProveGE0(k, dur) })
+		cap24 := st.All(func(k km.Conj) bool { x, _, _ := bounds(k, h, dur, 0); return x })
+		capAge := st.All(func(k km.Conj) bool { _, y, _ := bounds(k, h, dur, 0); return y })
+		nonNeg := st.All(func(k km.Conj) bool { _, _, z := bounds(k, h, dur, 0); return z })
 		r.Add("R-C03-1", km.FuncName(h), "duration <= 24h at "+callee.Name(), posOf(c, ci), "duration <= maxCertificateLifetime (24 h) on every path", sprintf("%v", cap24), cap24)
 		r.Add("R-C03-1", km.FuncName(h), "duration <= remaining session age at "+callee.Name(), posOf(c, ci), "duration <= time.Until(authInfo.IssuedAt + 24 h) on every path", sprintf("%v", capAge), capAge)
 		r.Add("R-C03-1", km.FuncName(h), "duration >= 0 at "+callee.Name(), posOf(c, ci), "duration >= 0 on every path", sprintf("%v", nonNeg), nonNeg)
@@ -213,16 +268,16 @@ func checkC03(c *km.Ctx) {
 				var conv *ssa.Convert
 				if ok && b.Op == token.ADD && isNowEpoch(b.X) {
 					if cv, ok := km.Unwrap(b.Y).(*ssa.Convert); ok {
-						if sec, ok := isCall(cv.X, "(time.Duration).Seconds"); ok && km.Unwrap(sec.Common().Args[0]) == ssa.Value(dparam) {
+						if d, ok := wholeSecondsOf(cv.X); ok && d == ssa.Value(dparam) {
 							good = true
 							conv = cv
 						}
 					}
 				}
-				r.Add("R-C03-2", km.FuncName(fn), "ValidBefore", posOf(c, st), "ValidAfter + uint64(duration.Seconds()) with duration exactly the parameter", km.ValStr(st.Val), good)
+				r.Add("R-C03-2", km.FuncName(fn), "ValidBefore", posOf(c, st), "ValidAfter + uint64(whole seconds of the duration parameter)", km.ValStr(st.Val), good)
 				if conv != nil {
 					stt := c.F.At(conv)
-					nonNeg := stt.All(func(k km.Conj) bool { return km.ProveGE0(k, dparam) })
+					nonNeg := stt.All(func(k km.Conj) bool { return km.ProveGE0(s.Augment(k), dparam) })
 					r.Add("R-C03-3", km.FuncName(fn), "uint64(duration.Seconds())", posOf(c, conv), "duration >= 0 proven at the conversion", sprintf("%v", nonNeg), nonNeg)
 				}
 			}
@@ -241,8 +296,7 @@ func checkC03(c *km.Ctx) {
 				if !ok1 || to.Info()&types.IsUnsigned == 0 {
 					return
 				}
-				if sec, ok := isCall(cv.X, "(time.Duration).Seconds"); ok {
-					d := km.Unwrap(sec.Common().Args[0])
+				if d, ok := wholeSecondsOf(cv.X); ok && km.NamedTypeOf(d.Type()) == "time.Duration" {
 					if f2 == fn && d == ssa.Value(dparam) {
 						return // judged above
 					}
